@@ -243,7 +243,9 @@ func runDial(tt *testing.T, tape *simrt.Tape, keep bool) (out simrt.Outcome) {
 			if mode == "connect-to" {
 				// further mapped sources, each with its own replacement list: every one must rotate evenly on its own
 				for j := 0; j < tape.Choose(3); j++ {
-					src := fmt.Sprintf("svc%d.test:%d", j+2, 80+j)
+					// spelled with capitals, and two sources that differ in letter case only: the map is keyed by the
+					// address exactly as it is dialled
+					src := []string{"Svc2.Test:80", "svc3.test:81", "SVC3.test:81"}[j]
 					var rs []string
 					for i := 0; i < 1+tape.Choose(4); i++ {
 						rs = append(rs, fmt.Sprintf("10.8.%d.%d:%d", j+1, i+1, 9000+i))
